@@ -240,6 +240,51 @@ theorem forceF_noThunks (lb : Cls) (e : Nat) : ∀ (f : Field) (p : List Nat),
     exact decodeF_noThunks lb e (.sub ml false off len w) true buf none p
 end
 
+/-! ### decoding lazily and forcing afterwards builds the same heap as decoding eagerly -/
+
+theorem lazyEnter_alias (flag : Bool) (cur fr : Region) :
+    (lazyEnter .aliasOnlyUnderFlag flag cur fr).2.1 = true ∧
+    (lazyEnter .aliasOnlyUnderFlag flag cur fr).2.2 = (lazyEnter .aliasOnlyUnderFlag flag cur fr).1 := by
+  cases flag <;> simp [lazyEnter]
+
+mutual
+theorem forceFs_decodeFs (e : Nat) : ∀ (w : WFields) (flag : Bool) (cur : Region) (lbuf : Option Region) (p : List Nat),
+    (∀ b, lbuf = some b → flag = true ∧ cur = b) →
+    forceFs .aliasOnlyUnderFlag e p (decodeFs .aliasOnlyUnderFlag e true flag cur lbuf p w) =
+      decodeFs .aliasOnlyUnderFlag e false flag cur lbuf p w
+  | .nil, _, _, _, _, _ => by simp [decodeFs, forceFs]
+  | .cons n f rest, flag, cur, lbuf, p, h => by
+    simp only [decodeFs, forceFs]
+    rw [forceF_decodeF e f flag cur lbuf (n :: p) h, forceFs_decodeFs e rest flag cur lbuf p h]
+theorem forceF_decodeF (e : Nat) : ∀ (w : WField) (flag : Bool) (cur : Region) (lbuf : Option Region) (p : List Nat),
+    (∀ b, lbuf = some b → flag = true ∧ cur = b) →
+    forceF .aliasOnlyUnderFlag e p (decodeF .aliasOnlyUnderFlag e true flag cur lbuf p w) =
+      decodeF .aliasOnlyUnderFlag e false flag cur lbuf p w
+  | .leaf c off len, _, _, _, _, _ => by simp [decodeF, forceF]
+  | .list es, flag, cur, lbuf, p, h => by
+    simp only [decodeF, forceF]
+    rw [forceFs_decodeFs e es flag cur lbuf (0 :: p) h]
+  | .sub ml fl off len fs, flag, cur, lbuf, p, h => by
+    have hl := lazyEnter_alias flag cur (.fresh e (0 :: p))
+    cases lbuf with
+    | none =>
+      simp only [decodeF, Bool.true_and, Bool.false_and]
+      cases fl <;> cases ml <;> simp only [forceF, if_true, if_false, Bool.false_eq_true]
+      · rw [forceFs_decodeFs e fs _ _ _ (1 :: p) (fun b hb => by cases hb)]
+      · rw [forceFs_decodeFs e fs _ _ _ (1 :: p) (fun b hb => by cases hb; exact hl)]
+      · rw [forceFs_decodeFs e fs _ _ _ (1 :: p) (fun b hb => by cases hb)]
+      · rw [forceFs_decodeFs e fs _ _ _ (1 :: p) (fun b hb => by cases hb; exact hl)]
+    | some b =>
+      obtain ⟨hf, hc⟩ := h b rfl
+      subst hf; subst hc
+      simp only [decodeF, Bool.true_and, Bool.false_and]
+      cases fl
+      · cases ml <;> simp only [forceF, if_true, if_false, Bool.false_eq_true]
+        · rw [forceFs_decodeFs e fs _ _ _ (1 :: p) (fun b hb => by cases hb)]
+        · rw [forceFs_decodeFs e fs _ _ _ (1 :: p) (fun b hb => by cases hb; exact hl)]
+      · simp only [forceF, decodeF, Bool.false_and]
+end
+
 /-! ### merge -/
 
 theorem refs_get : ∀ (fs : Fields) (k : Nat) (f : Field) (x : Bool × Region),
